@@ -3,7 +3,7 @@ import vcore
 
 ID = "C20"
 LEVEL = "proof"
-_T = ["any_failure_imp_error", "balanced", "verify_never_matches_on_failure", "success_iff_no_failure"]
+_T = ["any_failure_imp_error", "balanced", "verify_never_matches_on_failure", "success_iff_no_failure", "run_good"]
 THEOREMS = vcore.theorems_in("SodiumModel/Properties/C20.lean", _T, "Sodium.C20")
 IMPORTS = ["SodiumModel.Properties.C20"] if THEOREMS else ["SodiumModel.Model.Fault"]
 RULE = ("for each of 27 API entry points (raw hashing, string creation, string verification with right and wrong password, needs-rehash for Argon2i / "
